@@ -377,12 +377,39 @@ OUT_KINDS = ["rel", "rel-nested", "abs", "dotdot", "trail-new", "trail-dir", "no
              "hdr-is-out", "dot-c", "multi-slash", "enddot", "nodir", "dotdot-base", "utf8", "abs-nested", "impl-like"]
 
 
+def _long_dir(lens):
+    """nested directory path whose components are 'A'*n0 / 'B'*n1 / … (each at most NAME_MAX = 255 bytes)"""
+    return b"/".join(bytes([65 + i % 26]) * n for i, n in enumerate(lens))
+
+
+# Output paths of every LENGTH class (seeded change C20/5: the path was cut to NAME_MAX = 255 bytes before dirname(), so
+# everything was written, and cleaned, in an ancestor directory): kind -> (component lengths of the directory below
+# inv/ or the absolute root, absolute?, forced options).  Lengths of the relative path = sum + separators + len("out.c"):
+# 228 (inside 200..255), exactly 255, exactly 256 (first one cut, same dirname), 300, an absolute one of ~290, and one
+# near PATH_MAX (3623 bytes; the sandbox root must stay below PATH_MAX as a whole for the snapshots).  All below PATH_MAX,
+# so Model.runC predicts them (longer ones are `.ub`, C10's matter).  The module is always valid and the option sets are
+# fixed per kind: with and without -c, single- and multi-file, one and several threads.
+LONG_KINDS = {
+    "long-rel-228": ([100, 100, 20], False, {"c": 1, "fpf": 1, "t": 1}),
+    "long-rel-255": ([100, 100, 47], False, {"c": 0, "fpf": 2, "t": 2}),
+    "long-rel-256": ([100, 100, 48], False, {"c": 1, "fpf": 0, "t": 1}),
+    "long-rel-300": ([100, 100, 92], False, {"c": 1, "fpf": 1, "t": 2}),
+    "long-rel-300-noclean": ([100, 92, 100], False, {"c": 0, "fpf": 0, "t": 0}),
+    "long-abs-290": ([100, 100, 40], True, {"c": 1, "fpf": 2, "t": 1}),
+    "long-rel-pathmax": ([200] * 18, False, {"c": 1, "fpf": 1, "t": 4}),
+}
+OUT_KINDS += list(LONG_KINDS)
+
+
 def make_case(rng, idx, pool, refs, forced_kind=None):
     """A case = tree spec + argv (all bytes), independent of the scratch location: the token
     b'@ROOT@' in paths stands for the sandbox root."""
-    kind = forced_kind or rng.choice(OUT_KINDS)
+    # every kind is forced once per run (corr_runs); random cases take a long-path kind only now and then (deep trees are slow)
+    kind = forced_kind or (rng.choice(sorted(LONG_KINDS)) if rng.random() < 0.06 else rng.choice(OUT_KINDS[:len(OUT_KINDS) - len(LONG_KINDS)]))
     tree = []           # (relpath, kind, content|None)
     dirs = {b"inv", b"other", b"targets", b"inputs"}
+    if kind in LONG_KINDS:
+        return make_long_case(rng, idx, pool, refs, kind, tree, dirs)
     outdir = {"rel": b"inv", "rel-nested": b"inv/sub/deep", "abs": b"abs dir", "dotdot": b"inv/y", "trail-new": b"inv/sub",
               "trail-dir": b"inv/sub", "noext": b"inv/sub", "dotfile": b"inv/sub", "dots": b"inv/sub", "hdr-is-out": b"inv/sub",
               "dot-c": b"inv/sub", "multi-slash": b"inv/sub/deep", "enddot": b"inv/sub", "nodir": None, "dotdot-base": b"inv/sub",
@@ -497,6 +524,51 @@ def make_case(rng, idx, pool, refs, forced_kind=None):
     return {"id": idx, "kind": kind, "tree": tree, "dirs": sorted(dirs), "argv": argv, "outarg": outarg, "outdir": outdir,
             "opts": opts, "module": mname, "mbytes": mbytes, "modstate": modstate, "ref": ref, "refbytes": refbytes,
             "modarg": modarg, "refarg": refarg}
+
+
+def make_long_case(rng, idx, pool, refs, kind, tree, dirs):
+    """Long output paths (LONG_KINDS): valid module in inv/, fixed options, every ancestor of the output directory and
+    the output directory itself populated with names the run must not touch (matching, near-miss, same-named outputs)."""
+    lens, absolute, forced = LONG_KINDS[kind]
+    sub = _long_dir(lens)
+    outdir = (b"abs dir/" if absolute else b"inv/") + sub
+    outarg = (b"@ROOT@/abs dir/" if absolute else b"") + sub + b"/out.c"
+    dirs.add(outdir)
+    mname, mbytes = rng.choice([p for p in pool if len(fo.function_hashes(p[1])) >= 3] or pool)
+    tree.append((b"inv/m.wasm", "F", mbytes))
+    opts = {"fpf": forced["fpf"], "t": forced["t"], "p": 0, "g": 0, "m": 0, "c": forced["c"], "d": "arrays"}
+    argv = []
+    if opts["fpf"]:
+        argv += [b"-f", str(opts["fpf"]).encode()]
+    if opts["t"]:
+        argv += [b"-t", str(opts["t"]).encode()]
+    if rng.random() < 0.5:
+        opts["d"] = "gnu-ld"
+        argv += [b"-d", b"gnu-ld"]
+    ref, refarg, refbytes = None, None, None
+    if rng.random() < 0.4:
+        ref, refbytes, refarg = "ref-partial", refs["ref-partial"], b"../inputs/ref.wasm"
+        tree.append((b"inputs/ref.wasm", "F", refbytes))
+        argv += [b"-r", refarg]
+    # the output directory, each of its ancestors below the start directory, and inv/ hold stale implementation files,
+    # near misses and files named like the outputs
+    anc = []
+    parts = outdir.split(b"/")
+    for k in range(1, len(parts) + 1):
+        anc.append(b"/".join(parts[:k]))
+    for dr in sorted(set(anc + [b"inv", b"other"])):
+        names = set(rng.sample(MATCHING, 3)) | set(rng.sample(NEAR_MISS, 2)) | {b"out.c", b"out.h", b"datasegments", rng.choice(UNRELATED)}
+        for n in sorted(names):
+            rel = dr + b"/" + n
+            if rel in dirs or any(rel == t[0] for t in tree):
+                continue
+            tree.append((rel, "f", None))
+    if opts["c"]:
+        argv.insert(0, b"-c")
+    argv += [b"m.wasm", outarg]
+    return {"id": idx, "kind": kind, "tree": tree, "dirs": sorted(dirs), "argv": argv, "outarg": outarg, "outdir": outdir,
+            "opts": opts, "module": mname, "mbytes": mbytes, "modstate": "ok", "ref": ref, "refbytes": refbytes,
+            "modarg": b"m.wasm", "refarg": refarg}
 
 
 def build_tree(root, case):
@@ -687,8 +759,9 @@ def run_case(chk, exes, d, case, model_ans_for, broken, stats, variant):
         bad, through = judge_property(case, root, before, after, links)
         stats["write_through_symlink"] += len(through)
         bad2, sus = judge_syscalls(case, root, calls)
-        for key, text in bad + bad2:
-            chk.violation(key, text, replay, True)
+        allbad = bad + bad2
+        for key, text in allbad[:4]:          # one run in a wrong directory touches dozens of names: the first few identify it
+            chk.violation(key, text + (f" (+{len(allbad) - 4} more in this run)" if len(allbad) > 4 else ""), replay, True)
         for t in sus:
             broken.append({"kind": "suspicious-open", "msg": t, "command_line": replay["command_line"]})
         # ---- correspondence with the model
